@@ -129,7 +129,81 @@ def run_js_route(sh, res):
     res.nontrivial += res.features.get('js_nonempty_agree', 0)
 
 
+def run_misfit_names(sh, res):
+    """name lists that do not fit the records (every length 0..4 against widths 1..3, input and join side): whatever the engine decides, a header that comes out
+    has exactly as many names as every output record has fields (rbql-py and rbql-js)"""
+    from vf.checks import c14
+    from vf import js
+    batch, meta = [], []
+    for q, A, B, an, bn, bad in c14.namelen_cases():
+        got = drive.run_py(q, qcheck.copy_table(A), qcheck.copy_table(B), an, bn)
+        res.evaluations += 1
+        res.traces += 1
+        res.states += 1
+        case = {'route': 'table', 'query': q, 'A': A, 'B': B, 'a_names': an, 'b_names': bn}
+        if got['error'] is None and got['header'] is not None:
+            ws = sorted(set(len(r) for r in got['records']))
+            if ws and ws != [len(got['header'])]:
+                res.violation('header-width-mismatch', case, {'header_length': ws}, {'header': got['header'], 'record_widths': ws})
+            else:
+                res.feat('misfit_names_header_ok' if bad else 'fitting_names_header_ok')
+        else:
+            res.feat('misfit_names_rejected' if bad else 'fitting_names_no_header')
+        c = {'op': 'query', 'query': q.replace('"u"', "'u'"), 'input': A, 'input_names': an}
+        if B is not None:
+            c['join'] = B
+            c['join_names'] = bn
+        batch.append(c)
+        meta.append((case, bad))
+    if js.available():
+        for (case, bad), o in zip(meta, js.run_batch(batch)):
+            res.evaluations += 1
+            res.traces += 1
+            if 'error' not in o and o.get('header'):
+                ws = sorted(set(len(r) for r in o['records']))
+                if ws and ws != [len(o['header'])]:
+                    res.violation('js:header-width-mismatch', dict(case, route='rbql-js query_table'), {'header_length': ws}, {'header': o['header'], 'record_widths': ws})
+                else:
+                    res.feat('js_misfit_names_header_ok' if bad else 'js_fitting_names_header_ok')
+            else:
+                res.feat('js_misfit_names_rejected' if bad else 'js_fitting_names_no_header')
+    # quoted references to columns whose names need escape sequences: the output header carries the column's exact name (both quote styles, both engines)
+    nasty = ['\t', 'x\ny', 'p\\"q', "it's", 'a\\b', '\\', '"', "'", 'x y', '\r', '\\n', '\\\\', "\\'", 'é"', '`']
+    batch, meta = [], []
+    for n1 in nasty:
+        for n2 in nasty:
+            if n1 == n2:
+                continue
+            for s1, s2 in (('"', "'"), ("'", '"')):
+                text = 'select a[%s], a[%s], NR' % (refql.lit_text(n1, s1), refql.lit_text(n2, s2))
+                exp_h = [n1, n2, 'NR']
+                got = drive.run_py(text, [['1', '2']], None, [n1, n2], None)
+                res.evaluations += 1
+                res.traces += 1
+                res.states += 1
+                case = {'route': 'table', 'query': text, 'a_names': [n1, n2]}
+                if got['error'] is not None or got['header'] != exp_h or got['records'] != [['1', '2', 1]]:
+                    res.violation('header-mismatch', case, {'header': exp_h}, {'header': got['header'], 'records': got['records'], 'error': got['error']})
+                else:
+                    res.feat('escaped_names_header_ok')
+                    res.nontrivial += 1
+                batch.append({'op': 'query', 'query': text, 'input': [['1', '2']], 'input_names': [n1, n2]})
+                meta.append((case, exp_h))
+    if js.available():
+        for (case, exp_h), o in zip(meta, js.run_batch(batch)):
+            res.evaluations += 1
+            res.traces += 1
+            if 'error' in o or o.get('header') != exp_h or o.get('records') != [['1', '2', 1]]:
+                res.violation('js:header-mismatch', dict(case, route='rbql-js query_table'), {'header': exp_h}, {'header': o.get('header'), 'records': o.get('records'), 'error': o.get('error')})
+            else:
+                res.feat('js_escaped_names_header_ok')
+    res.sample({'misfit_name_lists': 'lengths 0..4 against widths 1..3', 'queries': c14.NAMELEN_QUERIES})
+    return res
+
+
 def run_shard(sh):
+    if sh['route'] == 'misfit':
+        return run_misfit_names(sh, core.Result())
     res = core.Result()
     if sh['route'] == 'js':
         run_js_route(sh, res)
@@ -273,13 +347,14 @@ def main(tier, seed):
     for route, parts in (('table', 64), ('csv', 32), ('pandas', 32), ('js', 16)):
         for lo, hi in core.chunks(n, parts):
             shards.append({'tier': tier, 'seed': seed, 'route': route, 'lo': lo, 'hi': hi})
+    shards.append({'tier': tier, 'seed': seed, 'route': 'misfit', 'lo': 0, 'hi': 0})
     res = core.run_shards('vf.checks.c07', shards)
     return core.finish(PID, tier, seed, res, t0,
         rule='all select lists up to the item bound over 17 (+4 with JOIN) item kinds x {header, no header} x {join, no join} x {plain, DISTINCT, DISTINCT COUNT, TOP}, plus GROUP BY / EXCEPT / UPDATE forms, '
-             'each observed through query_table (3 tables), query_csv (file to file) and query_pandas_dataframe; non-trivial = a header is expected',
+             'each observed through query_table (3 tables), query_csv (file to file) and query_pandas_dataframe; column-name lists of every length 0..4 against tables of width 1..3 (input and join side, 8 queries, rbql-py and rbql-js): a header that comes out fits the records; quoted references to 15 names that need escape sequences (both quote styles, both engines) name the column exactly; non-trivial = a header is expected',
         assumptions=['the name of the DISTINCT COUNT count column is left free (only its presence is required)', 'naming rule as stated in the property: alias; source column name for field / star forms; identifier for bare variables; colK otherwise'],
         extra={'cases': n, 'item_bound': 3 if tier == 'thorough' else 2},
-        min_features={'colK_names': 500, 'star_expansions': 500, 'no_header_expected': 200, 'star_alias_noheader': 10, 'js_cases': 1000})
+        min_features={'colK_names': 500, 'star_expansions': 500, 'no_header_expected': 200, 'star_alias_noheader': 10, 'js_cases': 1000, 'misfit_names_rejected': 500, 'js_misfit_names_rejected': 500, 'fitting_names_header_ok': 50, 'escaped_names_header_ok': 300, 'js_escaped_names_header_ok': 300})
 
 
 def replay(rep):
